@@ -112,6 +112,8 @@ def main(tier, write_baseline=False):
     fails = {}
     if not os.environ.get("VERIF_NO_BOUNDED"):
         pool = [(t, d, "the {name}") for t in TYPES for d in domain.SHAPES[t]]
+        # prose with characters that grow under str.casefold() (sharp s): index arithmetic on a folded copy goes wrong
+        pool += [(t, d, "Gr\u00f6\u00dfe des {name} (Ma\u00df)") for t in ("int", "float", "str") for d in domain.SHAPES[t]]
         irs = list(domain.irs(1, pool, suffix_defaults=True)) + list(domain.irs(2, pool, sample=40 if tier == "quick" else 600, seed=run.seed, suffix_defaults=True))
         irs += list(domain.irs(3, pool, sample=15 if tier == "quick" else 200, seed=run.seed + 1, suffix_defaults=True))[-(15 if tier == "quick" else 200):]
         irs = [i for i in irs if i["params"]]
